@@ -104,6 +104,9 @@ class CallMixin:
             elif isinstance(ft, BytesT):
                 arrs[fname] = (ft.base, z3.Array(fresh_name(f'{name}_{fname}_lo'), z3.IntSort(), z3.IntSort()),
                                z3.Array(fresh_name(f'{name}_{fname}_hi'), z3.IntSort(), z3.IntSort()))
+            elif isinstance(ft, ExtT):
+                # opaque-valued field: (marker, kind, array Int -> U)
+                arrs[fname] = ('$U', ft.kind, z3.Array(fresh_name(f'{name}_{fname}'), z3.IntSort(), U))
             else:
                 raise EngineError('RecordT field type')
         h = HObj('slist', meta={'len': n, 'arrs': arrs, 'elem_t': rt, 'name': name, 'arr': None})
@@ -115,7 +118,9 @@ class CallMixin:
             i = to_int_term(i)
             rec = {}
             for fname, a in h.meta['arrs'].items():
-                if isinstance(a, tuple):
+                if isinstance(a, tuple) and a[0] == '$U':
+                    rec[fname] = Opaque(z3.Select(a[2], i), kind=a[1])
+                elif isinstance(a, tuple):
                     rec[fname] = BytesV(a[0], z3.Select(a[1], i), z3.Select(a[2], i))
                 else:
                     rec[fname] = z3.Select(a, i)
